@@ -6,7 +6,9 @@ import (
 )
 
 // findingOwner maps a finding id to the property it is listed under.
-var findingOwner = map[string]string{}
+var findingOwner = map[string]string{
+	"F-C07a": "C07",
+}
 
 // classifyV1 maps an observation that differs from the specification to the listed finding
 // whose signature it matches; "" if none does.
